@@ -480,7 +480,9 @@ def body_unique(cfg, darsia, shape, dim):
             if mode == "RAVIART_THOMAS":
                 qp, qw = darsia.quadrature.gauss_reference_cell(dim, "max")
             elif mode == "CONSTANT_SUBCELL_PROJECTION":
-                qp, qw = darsia.quadrature.reference_cell_corners(dim)
+                # independent of the library's table: the 2^dim corners of the unit cell, weight 2^-dim each
+                qp = [list(c_) for c_ in itertools.product((0.0, 1.0), repeat=dim)]
+                qw = [0.5**dim] * len(qp)
             else:
                 qp, qw = darsia.quadrature.gauss_reference_cell(dim, 0)
             qp = np.asarray(qp).reshape(len(qw), dim)
